@@ -370,8 +370,8 @@ def _prep_signature(view, prov, op, depth=0):
             inner = set()
             for a in t.get("args", []):
                 inner |= _prep_signature(view, prov, a, depth + 1)
-            if seg in SIB_IGNORE:
-                out |= inner
+            if seg in SIB_IGNORE or seg in ORDER_VP_SEG:
+                out |= inner        # value-preserving views / conversions are not preparation
                 continue
             if not inner:
                 out.add(((seg,), None))
@@ -428,11 +428,27 @@ def run_siblings(facts, report, config):
             key = "c15.sibling|%s" % norm_id(bv["id"])
             pv, pc = mir.Provenance(vv), mir.Provenance(vc)
             diffs = []
+            soft = []
             for k, (av, ac) in enumerate(zip(fv[1]["args"], fc[1]["args"])):
                 sv, sc = _prep_signature(vv, pv, av), _prep_signature(vc, pc, ac)
                 if sv != sc:
-                    diffs.append("operand %d of `%s`: %s prepares it as %s, %s as %s" % (
-                        k, mir.last_seg(mir.callee_name(fv[1])), name, _fmt_sig(sv), bc["name"], _fmt_sig(sc)))
+                    msg = "operand %d of `%s`: %s prepares it as %s, %s as %s" % (
+                        k, mir.last_seg(mir.callee_name(fv[1])), name, _fmt_sig(sv), bc["name"], _fmt_sig(sc))
+                    # decisive only when one sibling transforms a parameter and the other passes the same parameter
+                    # untouched; two different transformations may well be equivalent (abs vs abs_sign().0)
+                    raw_v = {p for ch, p in sv if not ch and p}
+                    raw_c = {p for ch, p in sc if not ch and p}
+                    tr_v = {p for ch, p in sv if ch and p}
+                    tr_c = {p for ch, p in sc if ch and p}
+                    if (raw_v & tr_c) or (raw_c & tr_v):
+                        diffs.append(msg)
+                    else:
+                        soft.append(msg)
+            if soft and not diffs:
+                report.add(Instance(key, "c15.sibling", "info", "siblings prepare an operand through different helpers; "
+                                    "equivalence of the helpers is a value fact, not judged: " + "; ".join(soft), fv[1]["s"],
+                                    {"vartime": bv["id"], "sibling": bc["id"]}), config)
+                continue
             if diffs:
                 report.add(Instance(key, "c15.sibling", "violation",
                                     "`%s` and its constant-time sibling `%s` reach the same operation with differently "
